@@ -10353,13 +10353,13 @@ class TensorDictBase(MutableMapping):
         """
         keys, vals = self._items_list(True, True)
         if _is_tensor_collection(type(end)):
-            end_val = end._values_list(True, True)
+            end_val = end._values_list(True, True, sorting_keys=keys)
         else:
             end_val = end
         if isinstance(weight, (float, torch.Tensor)):
             weight_val = weight
         elif _is_tensor_collection(type(weight)):
-            weight_val = weight._values_list(True, True)
+            weight_val = weight._values_list(True, True, sorting_keys=keys)
         else:
             weight_val = weight
         vals = torch._foreach_lerp(vals, end_val, weight_val)
@@ -10382,17 +10382,18 @@ class TensorDictBase(MutableMapping):
         weight: TensorDictBase | torch.Tensor | float,
     ):
         """In-place version of :meth:`~.lerp`."""
+        keys, vals = self._items_list(True, True)
         if _is_tensor_collection(type(end)):
-            end_val = end._values_list(True, True)
+            end_val = end._values_list(True, True, sorting_keys=keys)
         else:
             end_val = end
         if isinstance(weight, (float, torch.Tensor)):
             weight_val = weight
         elif _is_tensor_collection(type(weight)):
-            weight_val = weight._values_list(True, True)
+            weight_val = weight._values_list(True, True, sorting_keys=keys)
         else:
             weight_val = weight
-        torch._foreach_lerp_(self._values_list(True, True), end_val, weight_val)
+        torch._foreach_lerp_(vals, end_val, weight_val)
         return self
 
     @_maybe_broadcast_other("addcdiv", 2)
@@ -10422,11 +10423,11 @@ class TensorDictBase(MutableMapping):
         """
         keys, vals = self._items_list(True, True)
         if _is_tensor_collection(type(other1)):
-            other1_val = other1._values_list(True, True)
+            other1_val = other1._values_list(True, True, sorting_keys=keys)
         else:
             other1_val = other1
         if _is_tensor_collection(type(other2)):
-            other2_val = other2._values_list(True, True)
+            other2_val = other2._values_list(True, True, sorting_keys=keys)
         else:
             other2_val = other2
         vals = torch._foreach_addcdiv(vals, other1_val, other2_val, value=value)
@@ -10445,17 +10446,16 @@ class TensorDictBase(MutableMapping):
 
     def addcdiv_(self, other1, other2, *, value: float | None = 1):
         """The in-place version of :meth:`~.addcdiv`."""
+        keys, vals = self._items_list(True, True)
         if _is_tensor_collection(type(other1)):
-            other1_val = other1._values_list(True, True)
+            other1_val = other1._values_list(True, True, sorting_keys=keys)
         else:
             other1_val = other1
         if _is_tensor_collection(type(other2)):
-            other2_val = other2._values_list(True, True)
+            other2_val = other2._values_list(True, True, sorting_keys=keys)
         else:
             other2_val = other2
-        torch._foreach_addcdiv_(
-            self._values_list(True, True), other1_val, other2_val, value=value
-        )
+        torch._foreach_addcdiv_(vals, other1_val, other2_val, value=value)
         return self
 
     @_maybe_broadcast_other("addcmul", 2)
@@ -10486,11 +10486,11 @@ class TensorDictBase(MutableMapping):
         """
         keys, vals = self._items_list(True, True)
         if _is_tensor_collection(type(other1)):
-            other1_val = other1._values_list(True, True)
+            other1_val = other1._values_list(True, True, sorting_keys=keys)
         else:
             other1_val = other1
         if _is_tensor_collection(type(other2)):
-            other2_val = other2._values_list(True, True)
+            other2_val = other2._values_list(True, True, sorting_keys=keys)
         else:
             other2_val = other2
         vals = torch._foreach_addcmul(vals, other1_val, other2_val, value=value)
@@ -10509,17 +10509,16 @@ class TensorDictBase(MutableMapping):
 
     def addcmul_(self, other1, other2, *, value: float | None = 1):
         """The in-place version of :meth:`~.addcmul`."""
+        keys, vals = self._items_list(True, True)
         if _is_tensor_collection(type(other1)):
-            other1_val = other1._values_list(True, True)
+            other1_val = other1._values_list(True, True, sorting_keys=keys)
         else:
             other1_val = other1
         if _is_tensor_collection(type(other2)):
-            other2_val = other2._values_list(True, True)
+            other2_val = other2._values_list(True, True, sorting_keys=keys)
         else:
             other2_val = other2
-        torch._foreach_addcmul_(
-            self._values_list(True, True), other1_val, other2_val, value=value
-        )
+        torch._foreach_addcmul_(vals, other1_val, other2_val, value=value)
         return self
 
     @_maybe_broadcast_other("sub")
